@@ -340,6 +340,24 @@ class Gen:
         lo, hi = self.bounds[name]
         v = r.choice([lo, hi, hi + self.step, hi + 100.0, math.nextafter(hi, math.inf), (lo + hi) / 2 if self.exact is False else hi,
                       lo - self.step if lo > 0 else hi + 2 * self.step])
+        if r.random() < 0.3:
+            # a value off by a FACTOR rather than by a step (added after seed C03k: the feed limit compared with the speed
+            # converted to millimetres once the program is in inches): a unit conversion applied on one side only lets exactly
+            # these through -- far below a positive minimum, or a multiple of the maximum
+            fs = [hi * 3.0, math.floor(hi * 25.4 / self.step) * self.step]
+            if lo > 0:
+                fs += [math.floor(lo / 25.4 / self.step) * self.step, math.floor(lo / 10.0 / self.step) * self.step,
+                       math.ceil(lo / 3.0 / self.step) * self.step]
+            v = r.choice(fs)
+            if not name.endswith("-temperature") and r.random() < 0.6:
+                # ... with the program in inches around the call (the limits are plain numbers in the program's own units)
+                q = self.__dict__.setdefault("queue", [])
+                call = ({"call": "set_tool_power", "val": v} if name == "tool-power" else
+                        r.choice([{"call": "set_feed_rate", "val": v},
+                                  {"call": "move", "ax": [self.num(2, 18) if not getattr(self, "rel", False) else self.num(-3, 3), None, None],
+                                   "F": v, "mode": "towards"}]))
+                q.extend([call, {"call": "set_length_units", "mode": "millimeters"}])
+                return {"call": "set_length_units", "mode": "inches"}
         if name.endswith("-temperature"):
             kind = name[:-12]
             if r.random() < 0.5:
